@@ -612,6 +612,9 @@ func signChanges() []change {
 	add("time-subsecond", true, -1, func(r *areq) { r.Time = r.Time.Add(987654321) })
 	add("time-zone", true, -1, func(r *areq) { r.Time = r.Time.In(time.FixedZone("z", -7*3600)) })
 	add("expiry-same-second", false, -1, func(r *areq) { r.Expiry = r.Time.Add(700 * time.Millisecond) })
+	add("expiry==time-other-zone", false, -1, func(r *areq) { r.Expiry = r.Time.UTC(); r.Time = r.Time.In(time.FixedZone("e", 5*3600+45*60)) })
+	add("expiry==time-local-vs-utc", false, -1, func(r *areq) { r.Expiry = r.Time.In(time.FixedZone("w", -3*3600-1800)); r.Time = r.Time.UTC() })
+	add("expiry-same-second-other-zone", false, -1, func(r *areq) { r.Expiry = r.Time.Add(400 * time.Millisecond).In(time.FixedZone("n", 3600)) })
 	add("expiry-before", false, -1, func(r *areq) { r.Expiry = r.Time.Add(-time.Hour) })
 	add("expiry-next-second", true, -1, func(r *areq) { r.Expiry = r.Time.Truncate(time.Second).Add(time.Second + 5) })
 	add("expiry-none", true, -1, func(r *areq) { r.Expiry = time.Time{} })
